@@ -15,6 +15,11 @@ seed-dependent ingredients are generic atoms drawn from env.rng(tag).
              right field); basis mutually orthogonal with ONE common norm (value recorded, not prescribed); every
              generator reproduced by its projection on the basis (=> equal spans); complement orthogonal to the basis,
              linearly independent, and #basis + #complement == ambient dimension from an explicit list of class units.
+             dtype axis: atoms rounded to the grid 2^-10 (so that every dependency pattern is EXACT in float32) x patterns {dup, sum, mix}
+             handed over as float32 / complex64 (tolerances with eps(float32): the library reduces in the input precision); int64 unit
+             lists and int64 generic atoms x the same patterns (real classes).  Inexact single precision data are outside the space.
+             option zero_eps in {1e-6, 1e-13} x lists [a_1..a_k, a_1 + delta E]/8, delta in {1e-4, 1e-9, 1e-15}: reference rank with the
+             same threshold (domain: no singular value within a factor 10 of it).
   hier     : has_rank_hierarchical_method(B, r, k): B = orthonormal basis of span{P, A_1..A_(N-1)}, P from the planted
              alphabet (ALL matrix units / all two-unit partial identities, two structured sums, generic atoms of rank
              r-1 and, for r=3, rank 1), A_i generic atoms, basis chosen by EVERY element of the change-of-basis alphabet
@@ -25,6 +30,18 @@ seed-dependent ingredients are generic atoms drawn from env.rng(tag).
              (ALL basis product vectors, two structured ones, generic atoms).  Must be False.
   rank1    : detect_real_matrix_subspace_rank_one(B): real subspaces (general and symmetric) with a planted rank-one
              element; both answers of the environment (entropy stream used by ARPACK's start vector). Must be True.
+  options  : hier: list-of-matrices argument == array argument ('first' basis); return_info=True: same answer + Hermitian PSD matrix
+             whose smallest eigenvalue reproduces it ('atom' basis).  zero_eps of all three certificates in {1e-10, 1e-13} (smaller than
+             the default 1e-7: soundness demanded as for the default) and 1e-5 (larger: twins only; certificate must be monotone).
+             rank1 on RAW generator lists [P, A_1..] x change of basis {first, atom} x patterns {indep, dup, sum, zero, mix} x scale
+             {1e-3, 1, 1e3}: must stay True.  hier shapes (2,3), (2,4), (4,5) and the full rank bound r = 4 on (4,4) (planted ranks 1..3);
+             abc dimension triples (3,2,2), (2,3,2), (2,3,4).
+  bipartite: get_real_bipartite_numerical_range(B, kind, method='eigen') for kind in {min, max}, B and -B, B from {zero, identity, unit,
+             diagonal, PSD (x) PSD (exact ends lmin lmin / lmax lmax), the same - 2I, antisym (x) antisym (range {0}, kink of the convex
+             objective at p = 1/2), generic symmetric atoms, projectors}.  Oracle: value == own golden-section minimisation of the convex
+             function p -> lambda(pB + (1-p)B^Gamma) (one-sided: never beyond the optimum; excess <= Lipschitz constant x Brent's x
+             tolerance), == exact end where known, bounds every e_i (x) f_j, min(B) == -max(-B).  method='rotation' is documented as
+             unreliable on non-smooth ranges: executed, agreement with 'eigen' recorded only.
   (twin)   : the same configurations with the planted element replaced by a generic atom are executed as well; their
              answers are only recorded (liveness / non-vacuity: the certificate is issued on comparable input).
   numrange : get_matrix_numerical_range(A[, num_point]) for n = 1..8 (one dense eigensolver for every size since the repair of the
@@ -71,10 +88,14 @@ RULE = ('mode P (product lattices): case = one configuration (decomp: generator 
         'x subspace dimension N x hierarchy level x field; numrange: matrix size); inside a case the whole input alphabet is executed on the '
         'real code: decomp = all (number of independent atoms 1..ambient) x dependency patterns x atom sets + all unit-spanned lists; '
         'certificates = planted alphabet x change-of-basis alphabet (x entropy stream) + generic twins; numrange = matrix alphabet x '
-        'num_point list x entropy stream. state = one input (generator list / handed orthonormal basis / (matrix, num_point, stream)); '
+        'num_point list x entropy stream; bipartite = matrix alphabet x kind x sign x entropy stream. Option axes: decomp dtype {f64,c128,f32,c64,i64} '
+        '(single precision only with exactly representable generators) and zero_eps x perturbation size; certificates zero_eps, raw generator lists '
+        '(rank1), list argument / return_info (hier). state = one input (generator list / handed orthonormal basis / (matrix, num_point, stream)); '
         'transition = one numqi call whose complete result was compared with the reference (plus, for numrange, one per returned point); '
         'trace = one state on which every oracle clause was evaluated; non-trivial = decomp: basis and complement both non-empty; '
         'certificates: a certificate was actually issued (twin states); numrange: the matrix is not a multiple of the identity')
+# additions whose oracle fires on the unchanged tree (defect reported, repair of numqi pending): skipped and counted
+PENDING = set()  # bipartite_zero_matrix was repaired in numqi (known_findings.json)
 ASSUMPTIONS = [
     'reference = plain numpy: own coordinates (flattened real / imaginary parts over R, flattened entries over C), numpy SVD for ranks, '
     'numpy QR for the handed orthonormal bases, numpy eigvalsh for the support function',
@@ -88,6 +109,14 @@ ASSUMPTIONS = [
     'the start vector ARPACK draws through np.random.default_rng() is an environment answer owned by the entropy seam (streams 0,1)',
     'soundness only: a generic twin that is not certified is not a violation (completeness of a level is not claimed)',
     'sizes above the stated bounds and generators with singular values inside (1e-11, 1e-6) are outside the explored space',
+    'single precision generator lists are covered only with exactly representable entries (grid 2^-10): for rounded float32 data '
+    'fl(A+B) != fl(A)+fl(B) by ~1e-8 > zero_eps and the larger rank is the correct answer for the data as given; their results are '
+    'compared with eps(float32) tolerances (the SVD runs in the input precision)',
+    'explicit zero_eps: lists with a singular value within a factor 10 of the threshold, or with 8 eps sigma_1 above threshold/10, are '
+    'outside the domain; a zero_eps above the default can only withhold a certificate (checked: monotone), below it soundness is demanded',
+    'get_real_bipartite_numerical_range: reference = own golden-section minimisation over p of numpy eigvalsh; scipy Brent is trusted to '
+    'stop within 3(sqrt(eps)|p|+xtol/3) of the minimiser of a convex function (safety 10); method="rotation" makes no promise (docstring)',
+    'PENDING additions (oracle in place, skipped and counted until numqi is repaired): ' + ', '.join(sorted(PENDING)),
 ]
 CHUNK = 1
 
@@ -96,8 +125,6 @@ EPS = 2.220446049250313e-16
 EPS32 = 1.1920928955078125e-07   # float32 / complex64 generator lists (dtype axis of decomp)
 SIGMA_HI = 1e-6    # reference singular values above this are "non-zero"
 SIGMA_LO = 1e-11   # ... below this are "zero" (library threshold zero_eps=1e-10 lies in between)
-# additions whose oracle fires on the unchanged tree (defect reported, repair of numqi pending): skipped and counted
-PENDING = {'bipartite_zero_matrix'}
 QUANT = 1024.0     # dtype axis: atoms rounded to multiples of 1/1024 (exact in float32, as are their integer combinations)
 DTYPE_PATTERNS = ('dup', 'sum', 'mix')
 ZERO_EPS_CERT = (1e-10, 1e-13, 1e-5)   # zero_eps option of the three certificates (default 1e-7): two smaller values, one larger
@@ -770,6 +797,14 @@ def run_certificate(case, out, env):
                     continue
                 for pat in case['raw']['patterns']:
                     lst = np.stack(apply_pattern(pat, list(base)))
+                    # premise of the oracle: the pattern keeps the whole span (mix_matrix(k) is rank deficient for some k, e.g. k = 5)
+                    F = lst.reshape(lst.shape[0], -1)
+                    u_, s_, vt_ = np.linalg.svd(F, full_matrices=False)
+                    vt_ = vt_[s_ > 1e-9 * s_[0]]
+                    pv = np.asarray(P, dtype=dt).reshape(-1)
+                    if vt_.shape[0] != N or np.linalg.norm(pv - vt_.T @ (vt_ @ pv)) > 1e-12 * np.linalg.norm(pv):
+                        out.count('raw_pattern_loses_span')
+                        continue
                     for scale in case['raw']['scales']:
                         raw = scale * lst
                         out.state()
@@ -1204,6 +1239,11 @@ def build_cases(tier, seed):
         'change_of_basis_alphabet': ['first', 'last', 'dense', 'atom'] + ['rot(%g,first|last)' % t for t in rot],
         'numrange': {'n': [1, 8], 'num_point': num_point, 'default_num_point_at_n': [3] if quick else [1, 3, 6], 'dtypes': ['complex128', 'float64', 'int64'], 'entropy_streams': 2 if quick else 4},
         'generic_atoms_per_alphabet': G,
+        'decomp_dtype_axis': {'dtypes': ['float32/complex64 (grid 2^-10)', 'int64'], 'patterns': list(DTYPE_PATTERNS), 'atom_sets': 1 if quick else G},
+        'decomp_zero_eps': {'zero_eps': list(ZERO_EPS_DECOMP), 'perturbation': list(PERTURB_DECOMP), 'k': '{1,2,amb/2,amb-1}' if quick else '1..amb-1'},
+        'certificate_zero_eps': list(ZERO_EPS_CERT), 'rank1_raw': {'patterns': list(RAW_PATTERNS), 'scales': list(RAW_SCALES)},
+        'bipartite': {'shapes': 'quick (2,2),(2,3),(3,2),(3,3); thorough + (2,4),(3,4),(4,4)', 'kinds': ['min', 'max'], 'methods': ['eigen (oracle)', 'rotation (recorded)']},
+        'pending': sorted(PENDING),
         'exhaustive': True,
         'note': 'exhaustive within the stated bounds: every element of every listed product is executed; real-valued inputs off the '
                 'alphabets (other atoms, other rotation angles) are not covered',
